@@ -32,7 +32,7 @@ def hashseed_outputs(snippet, seeds=range(48)):
     outs = {}
     for sd in seeds:
         p = subprocess.run([sys.executable, "-c", "import cdd.class_.parse\n" + snippet], capture_output=True, text=True,
-                           env=dict(os.environ, PYTHONHASHSEED=str(sd), PYTHONPATH="/verif", CHX_NO_INSTRUMENT="1"), timeout=120)
+                           env=dict(os.environ, PYTHONHASHSEED=str(sd), PYTHONPATH=os.environ.get("PYTHONPATH") or "/verif", CHX_NO_INSTRUMENT="1"), timeout=120)
         outs.setdefault(p.stdout + ("" if p.returncode == 0 else "\nrc=%d %s" % (p.returncode, p.stderr[-300:])), []).append(sd)
     return outs
 
